@@ -29,16 +29,18 @@ from praatio import praatio_scripts
 from praatio.utilities import utils as putils
 from praatio.utilities import errors as perrors
 
-RULE = ("findNearestZeroCrossing: recordings of 0..~400 samples (random, all-positive, all-negative, all-zero, sparse-zero, "
-        "single-crossing, sine, two-level square; widths 1/2/4; rates 8, 16, 64, 1024, 8192 (model + oracle) and 10, 100, 44100 "
-        "(oracle only)) x targets on every kind of position (sample positions 0..n, half and quarter samples, decimals, negative, "
-        "beyond the end, far away: 1e3..1e17 and -1e17) x steps (whole 2..40 samples, fractional 2.25/2.5/3.75 samples, the default "
-        "0.002 s; malformed: 1 and 1.5 samples, 0, negative).  unit comparisons of _getNearestZero/_getZeroThresholdCrossing on "
-        "random windows in both directions, getInterval, chooseClosestTime, sign.  tgBoundariesToZeroCrossings: 1-3 tier textgrids "
-        "(interval + point tiers, boundaries on and off sample positions) on such recordings at 1024/8192/8000/16000/44100 Hz, "
-        "adjustPointTiers/adjustIntervalTiers in {T,F}.  audioSplice: such textgrids (span = audio duration) x insertion points on "
-        "boundaries / inside intervals / in gaps x optional replaced region x alignToZeroCrossing in {T,F}; _shiftTimes alone.  "
-        "non-trivial = the recording has samples and the call reaches the search loop / the textgrid has entries")
+RULE = ("findNearestZeroCrossing: recordings of 0..~400 samples (1500 at 44100 Hz; random, all-positive, all-negative, all-zero, "
+        "sparse-zero, single-crossing, sine, two-level square; widths 1/2/4; rates 8, 16, 64, 1024, 8192 (model + oracle) and 10, 100, "
+        "44100 (oracle only)) x targets on every kind of position (sample positions 0..n, half / quarter / eighth samples, decimals, "
+        "negative, beyond the end, 40..2500 steps away on either side; two calls per run 1e17 / -1e17 away and two more in the "
+        "corpus, expected not to return: known finding C18-A16) x steps (whole 2..40 samples, fractional 2.0625..7.5 samples, the "
+        "default 0.002 s; malformed: 1, 1.5 and 1.9375 samples, 0, negative).  unit comparisons of _getNearestZero / "
+        "_getZeroThresholdCrossing / _findNextZeroCrossing on random windows in both directions, getInterval, chooseClosestTime, sign.  "
+        "tgBoundariesToZeroCrossings: 1-3 tier textgrids (interval + point tiers, boundaries on and off sample positions) on such "
+        "recordings at 1024/8192/8000/16000/44100 Hz, adjustPointTiers/adjustIntervalTiers in {T,F}.  audioSplice: such textgrids "
+        "(span = audio duration) x insertion points on boundaries / inside intervals / in gaps / at the ends x optional replaced region "
+        "x alignToZeroCrossing in {T,F} (textgrid and audio bytes compared); _shiftTimes alone.  "
+        "non-trivial = the recording has samples and the step is admissible / the window is non-empty / the textgrid has entries")
 TRUSTED = ["oracle: the property text evaluated on plain Python lists of samples and entry lists (harness/props/C18.py:oracle); bytes "
            "decoded with int.from_bytes, independently of struct",
            "the 2 s signal.setitimer guard as the observation of non-termination",
@@ -517,18 +519,21 @@ def oracle_tgzc(c, r):
             continue
         if len(got["es"]) != len(ts["es"]):
             return Failure(dict(sig, clause="entry-count"), f"tier {ts['name']!r}: {len(ts['es'])} entries before, {len(got['es'])} after")
-        l0, l1 = [e[-1] for e in ts["es"]], [e[-1] for e in got["es"]]
-        if (ts["k"] == "I" and l0 != l1) or sorted(l0) != sorted(l1):
-            return Failure(dict(sig, clause="labels"), f"tier {ts['name']!r}: labels {l0} became {l1}")
-        want = entries_after_zc(ts, tbl)[1]
-        if want != got["es"]:
-            return Failure(dict(sig, clause="moved-to-search-result"), f"tier {ts['name']!r}: {got['es']} but the search maps the old boundaries to {want}")
-        old = {x for e in ts["es"] for x in e[:-1]}
+        old = sorted({x for e in ts["es"] for x in e[:-1]})
         z = dict(tbl)
         for x in old:
             f = judge_crossing(S, rate, n, x, z[x][1], sig, f"tier {ts['name']!r} boundary {x!r}")
             if f is not None:
                 return f
+        l0, l1 = [e[-1] for e in ts["es"]], [e[-1] for e in got["es"]]
+        # same labels; in the same order for intervals whenever the search keeps the boundaries in order (points that
+        # move past each other may swap places; a search that reverses boundaries may reorder whole intervals)
+        monotone = all(z[x][1] <= z[y][1] for x, y in zip(old, old[1:]))
+        if (ts["k"] == "I" and monotone and l0 != l1) or sorted(l0) != sorted(l1):
+            return Failure(dict(sig, clause="labels"), f"tier {ts['name']!r}: labels {l0} became {l1}")
+        want = entries_after_zc(ts, tbl)[1]
+        if want != got["es"]:
+            return Failure(dict(sig, clause="moved-to-search-result"), f"tier {ts['name']!r}: {got['es']} but the search maps the old boundaries to {want}")
     return None
 
 
@@ -624,7 +629,10 @@ def oracle_splice(c, r):
         after_pt = max(after_pt, pre["a"] if pre["b"] is None else pre["b"])
     for ts, got in zip(g["tiers"], tg2["tiers"]):
         if ts["k"] == "I":
-            early = [list(x) for x in ts["es"] if (x[1] < before_pt if align else x[1] <= before_pt)]
+            # "ended before": an entry ending exactly on the insertion point is unchanged too, except that with a
+            # replaced region eraseRegion's re-join may fuse it with an equal-labelled remnant (C07/C08: same labelling)
+            strict = align or b is not None
+            early = [list(x) for x in ts["es"] if (x[1] < before_pt if strict else x[1] <= before_pt)]
             late = [x[2] for x in ts["es"] if x[0] >= after_pt]
             got_late = [x[2] for x in got["es"] if x[0] >= e - 1e-9 and x[2] != c["label"]]
         else:
